@@ -119,7 +119,7 @@ func (w *c16world) enabled() []c16op {
 		return false
 	}
 	for i, wr := range w.writers {
-		if (wr.state == "aborted" || wr.state == "closefailed" || wr.state == "closed") && reused(i) {
+		if (strings.HasPrefix(wr.state, "aborted") || wr.state == "closefailed" || strings.HasPrefix(wr.state, "closed+") || wr.state == "closed") && reused(i) {
 			continue
 		}
 		switch wr.state {
@@ -138,6 +138,18 @@ func (w *c16world) enabled() []c16op {
 			ops = append(ops, c16op{"abort", i, ""}, c16op{"tomb", i, ""})
 		case "closed", "aborted":
 			ops = append(ops, c16op{"tomb", i, ""})
+			// calls on a finished writer ("any sequence"): a second Close, an Abort after the
+			// Close (documented no-op), a Write — none may change what the directory holds
+			ops = append(ops, c16op{"again", i, "close"}, c16op{"again", i, "abort"}, c16op{"again", i, "write"})
+		default:
+			if strings.HasPrefix(wr.state, "closed+") || strings.HasPrefix(wr.state, "aborted+") {
+				ops = append(ops, c16op{"tomb", i, ""})
+				for _, k := range []string{"close", "abort"} {
+					if !strings.Contains(wr.state, "+"+k) {
+						ops = append(ops, c16op{"again", i, k})
+					}
+				}
+			}
 		}
 	}
 	return ops
@@ -211,6 +223,19 @@ func (w *c16world) apply(op c16op, payloads map[string][]byte) error {
 		delete(w.expect, base+".tmp")
 		delete(w.expect, base+".dat")
 		wr.state = "aborted"
+	case "again":
+		// the return value is the writer's business; the directory must stay as it is
+		switch op.arg {
+		case "close":
+			wr.wc.Close()
+		case "abort":
+			if ab, ok := wr.wc.(interface{ Abort() error }); ok {
+				ab.Abort()
+			}
+		case "write":
+			wr.wc.Write([]byte("late write"))
+		}
+		wr.state += "+" + op.arg
 	case "tomb":
 		if err := w.store.TombstoneFile(ctx, []byte(wr.ptr)); err != nil {
 			return fmt.Errorf("TombstoneFile: %v", err)
@@ -406,6 +431,6 @@ func init() {
 			}
 			return cs
 		},
-		Rule: "breadth-first search over call sequences of 2 (quick) / 3 (thorough) writer slots: CreateFile with a scripted name draw (n0/n1, so every creation can collide with a committed, in-progress, failed-close or aborted name and must redraw), Write(valid bloom file A/B | garbage), Close, Close failing at fsync/rename, Abort, TombstoneFile after the writer finished, slot reuse after tombstone; depth 7 / 9, states deduplicated by (directory contents, writer states); after every step the real directory must equal the map model byte for byte, the scan must list exactly the valid successfully-closed untombstoned files and OpenFile must return the written bytes",
+		Rule: "breadth-first search over call sequences of 2 (quick) / 3 (thorough) writer slots: CreateFile with a scripted name draw (n0/n1, so every creation can collide with a committed, in-progress, failed-close or aborted name and must redraw), Write(valid bloom file A/B | garbage), Close, a second Close / an Abort / a Write on a finished writer, Close failing at fsync/rename, Abort, TombstoneFile after the writer finished, slot reuse after tombstone; depth 7 / 9, states deduplicated by (directory contents, writer states); after every step the real directory must equal the map model byte for byte, the scan must list exactly the valid successfully-closed untombstoned files and OpenFile must return the written bytes",
 	}
 }
